@@ -187,7 +187,7 @@ func applyTag(t *rapid.T, target map[string]any, parts []map[string]any) (string
 func genC04(t *rapid.T) c04Case {
 	files := rapid.IntRange(0, 3).Draw(t, "files") == 0
 	target := genTargetModel(t, files)
-	sp := &splitter{t: t, n: rapid.IntRange(2, 4).Draw(t, "nparts"), used: map[string]int{}}
+	sp := &splitter{t: t, n: rapid.IntRange(2, 4).Draw(t, "nparts"), used: map[string]int{}, emptyLists: rapid.IntRange(0, 2).Draw(t, "emptylists") == 0}
 	parts := sp.splitModel(target)
 	cs := c04Case{AsDocs: rapid.IntRange(0, 2).Draw(t, "asdocs") == 0, HasFiles: files}
 	// the merge rules do not depend on the later stages a caller may switch off
